@@ -63,6 +63,11 @@ FIXED = [
     ([['password', True], ['banner', 'Welcome\n'], ['shell', 'sh', 'user@h:~$ ']], {'auto_prompt_reset': False}),
     ([['hostkey'], ['passphrase', True], ['shell', 'csh', '% ']], {}),
     ([['password', True], ['terminal'], ['shell', 'zsh', 'h# ']], {}),
+    ([['terminal'], ['terminal'], ['shell', 'sh', '$ ']], {}),                              # the terminal question twice
+    ([['password', True], ['terminal'], ['terminal'], ['shell', 'sh', '$ ']], {}),
+    ([['hostkey'], ['terminal'], ['password', True], ['terminal'], ['shell', 'sh', '$ ']], {}),
+    ([['password', True], ['banner', 'Last login: today\n'], ['shell', 'sh', 'user@h:~$ ']], {'quiet': False, 'port': 2222}),
+    ([['hostkey'], ['password', True], ['shell', 'csh', 'h> ']], {'ssh_key': True}),
 ]
 
 
@@ -228,6 +233,19 @@ def one(case, acc):
                 want = T(ident + '\r\n')
                 if s.before not in (want, T('echo ' + ident + '\r\n') + want):
                     return v('prompt-does-not-delimit-output', 'echo %s: before=%r' % (ident, s.before))
+            if o['auto_prompt_reset']:
+                # nothing outstanding: prompt() must say so (False) after its timeout and leave the session usable;
+                # the next command goes through prompt() with the default timeout
+                acc.count('idle_prompt_checks')
+                if s.prompt(timeout=0.2) is not False:
+                    return v('prompt-true-with-nothing-outstanding', 'prompt() returned True although no command was sent (before=%r)' % (short(s.before),))
+                ident = 'IDLE' + os.urandom(4).hex()
+                s.sendline('echo ' + ident)
+                if not s.prompt():
+                    return v('prompt-not-found-after-login', 'no prompt after echo %s with the default timeout (before=%r)' % (ident, short(s.before)))
+                want = T(ident + '\r\n')
+                if s.before not in (want, T('echo ' + ident + '\r\n') + want):
+                    return v('prompt-does-not-delimit-output', 'after an idle prompt(): echo %s: before=%r' % (ident, short(s.before)))
             if o['auto_prompt_reset']:
                 # commands typed ahead: their outputs (longer than any look-back a prompt search might use) are
                 # already there, or arrive together, when prompt() is called once per command
